@@ -139,7 +139,7 @@ def reorg_boundary(F, rule):
 	for b in cb:
 		a = ex.of_operand(tfu.blocks[b]['t'][2]['args'][1])
 		terms, k = linear(a)
-		okd = k == -1 and len(terms) == 1 and any('height' in v for v in terms)
+		okd = k == -1 and len(terms) == 1   # `x - 1` for a single value x (the confirmation height found for the txid, however the search is written)
 	out.append(Result(rule, okd, ('ok:' if okd else 'shape:') + 'onchaintx-unconfirmed-height', 'OnchainTxHandler::transaction_unconfirmed calls blocks_disconnected(height_of_tx - 1)', len(cb), where=F.where(tfu.name)))
 	# the monitor hands the same height to its handler and resets best_block
 	for fn, arg_re, label in ((MON + 'blocks_disconnected', r'fork_point\.height|new_height', 'blocks_disconnected'), (MON + 'best_block_updated', r'^height$', 'best_block_updated')):
